@@ -37,7 +37,12 @@ func c03(g *Gen) {
 		var ents []c03ent
 		used := map[string]bool{}
 		sameNameInTables := false
+		var pkgList []string
 		for p := range pkgs {
+			pkgList = append(pkgList, p)
+		}
+		sort.Strings(pkgList) // (ranging over the map would make the random stream depend on Go's map order)
+		for _, p := range pkgList {
 			k := g.R.Intn(5)
 			if p == "" {
 				// anonymous / builtin entries live in the "" package
